@@ -235,7 +235,7 @@ func main() {
 	var uf ufStats
 	if only == "" || only == "undoflags" {
 		t0 := time.Now()
-		uf = runUndoFlags(run.Thorough(), samples)
+		uf = runUndoFlags(run.Thorough())
 		if uf.Stopped {
 			run.Incomplete("part undoflags cut by the time budget")
 		}
@@ -269,11 +269,11 @@ func main() {
 			"non-trivial state = some key with != 1 version (overwritten, undone or flags-only) or something written above an open stage / live checkpoint; " +
 			"part undoflags (key flags across undo): [outer level] base(target key absent / value / tombstone / flags-only persistent / flags-only non-persistent) x " +
 			"open(none, S, SS, C, SC, CS; S=Staging C=Checkpoint) x write(UpdateFlags | SetWithFlags | DeleteWithFlags with a flag-op list: empty, each of the 22 kv.FlagsOp, pairs " +
-			"[quick: persistent x non-persistent and same-flag pairs in both orders; thorough: all ordered pairs, two writes in the scope]) x every ending (Cleanup/Release per level, RevertToCheckpoint) x " +
+			"[quick: persistent-flag op + non-persistent-flag op, and pairs touching a common flag bit in both orders; thorough: all ordered pairs, two writes in the scope]) x every ending (Cleanup/Release per level, RevertToCheckpoint) x " +
 			"re-write of the key (Set, Delete, UpdateFlags(), UpdateFlags(set persistent), UpdateFlags(del non-persistent), SetWithFlags; directly and inside a fresh level); every prefix from the write on is one " +
 			"history executed on fresh buffers with the full observation set incl. the committer's view; its states = distinct (model state + ghosts) digests, non-trivial = holds an undone key that nobody has re-written yet, or reached by re-writing one; " +
 			"fan-out grid: n siblings under one prefix for n in {3,4,5,15,16,17,47,48,49,255,256} x 3 orders x prefixes x in-place leaf x 3 ways down, observed after each step",
-		"samples": samples.List(),
+		"samples": append(samples.List(), uf.samples...),
 		"bounds":  bounds,
 	}, []string{
 		"a RevertToCheckpoint is issued only for a live checkpoint that no open staging level starts after; Release/Cleanup only for the top handle, handle 0 or a stale handle (documented panics are not provoked)",
